@@ -72,7 +72,9 @@ P_SRC = {"none": [], "simple": ["x = 5"], "if": ["if b:\n    x = 6"], "loop": ["
 A_SRC = {"none": [], "simple": ["x = 7"]}
 
 
-def steps_of(ctxs):
+def steps_of(ctxs, slim=False):
+    if slim:
+        return [(c, t, p, "none") for c in ctxs for t in TERMS for p in ("none", "if")]
     return [(c, t, p, a) for c in ctxs for t in TERMS for p in BEFORE for a in AFTER]
 
 
@@ -83,11 +85,11 @@ def valid(path):
     return True
 
 
-def positions(depth):
+def positions(depth, slim=False):
     level = [(s,) for s in steps_of(["fn"])]
     out = list(level)
     for _ in range(depth):
-        level = [p + (s,) for p in level for s in steps_of(CTX)]
+        level = [p + (s,) for p in level for s in steps_of(CTX, slim)]
         out += level
     return [p for p in out if valid(p)]
 
@@ -158,7 +160,7 @@ def _grid_work(task):
     kinds, depth, calldepth, workdir, tag = task
     import importlib.util
 
-    pos = positions(depth)
+    pos = positions(depth, slim=depth >= 2)
     recs, srcs = [], {}
     modlines, fnames = [], {}
     for k in kinds:
@@ -258,7 +260,7 @@ def main(argv):
         for sh, recs in zip(shards, grids):
             p = os.path.join(d, "grid-%s.json" % sh[4])
             with open(p, "w") as f:
-                json.dump({"kinds": sh[0], "depth": sh[1], "calldepth": sh[2], "cases": recs}, f, separators=(",", ":"))
+                json.dump({"kinds": sh[0], "depth": sh[1], "calldepth": sh[2], "slim": sh[1] >= 2, "cases": recs}, f, separators=(",", ":"))
             envs.append({"CASES": p})
             metas.append(("grid", sh, recs))
         p = os.path.join(d, "extra.json")
@@ -283,7 +285,7 @@ def main(argv):
                         raise tlc.MachineryError(clause + " (%s)" % (sh[4] if sh else "extra"))
                     c = recs[st["tid"] - 1]
                     if what == "grid":
-                        path = next(pp for pp in positions(sh[1]) if path_name(pp) == c["path"])
+                        path = next(pp for pp in positions(sh[1], slim=sh[1] >= 2) if path_name(pp) == c["path"])
                         src = build(path, SNIPPET[c["kind"]])
                         rep.violation(clause, {"kind": c["kind"], "position": c["path"], "src": src}, detail={"outcomes": c["out"]},
                                       signature={"kind": c["kind"], "clause": clause})
